@@ -10,7 +10,7 @@ PID = "C07"
 RULE = ("lattice: TLC enumerates (from, to, s, u) with s, u in eighths over integer-lattice states of R^n, SO(2), "
         "SO(3) (Hurwitz quaternions), time, discrete, torus, SE(2), SE(3), nested weighted compounds and wrappers, with "
         "the exact admissible interpolants (either arc / either great circle on antipodal ties); recorded: seeded "
-        "adversarial pairs on all 25 shipped spaces, t in 64ths. A case is non-trivial when its class hits a case "
+        "adversarial pairs on all 29 shipped spaces, t in 64ths. A case is non-trivial when its class hits a case "
         "split: coincident, antipodal tie, seam-crossing, long-way quaternion, landing exactly on -pi, t in {0,1}, "
         "on a bound; distinct = distinct hash of (space, case).")
 ASSUMPTIONS = ["states in bounds",
